@@ -97,6 +97,7 @@ type frame struct {
 	allocByPos map[token.Pos]*ssa.Alloc
 	activeRange *rangeState
 	newRefs  []Term
+	nret     int
 }
 
 var _ = 0
